@@ -5,7 +5,7 @@ ENV = os.path.join(os.path.dirname(os.path.dirname(os.path.abspath(__file__))), 
 UNIT = {
     "name": "codegen_guards",
     "env": [os.path.join(ENV, "codegen_guards_env.rs")],
-    "declared_trusted": {r"external_body": 16},
+    "declared_trusted": {r"external_body": 21},
     "items": [
         # BindgenContext::instantiate_template: splitting the flattened argument list never reaches below its start
         # (statements R18, `until` mode; the subtraction and Vec::drain are the obligations)
@@ -54,20 +54,23 @@ UNIT = {
          ],
          "requires": ["clang::s_elem(*ty).is_some()"],
          "ensures": ["r is Pointer"]},
-        # BindgenContext::process_replacements, the statement that records a replacement (if-let statement R18): a `replaces="X"`
-        # annotation whose item never came into existence (its type could not be parsed) is ignored - the id is only turned
-        # into a type id after it was found in the item table
+        # BindgenContext::process_replacements, the statement that records a replacement (if-let statement R18; `continue` of the
+        # enclosing loop = return from the statement): a `replaces="X"` annotation is honoured only when its item exists in the
+        # item table (else its type could not be parsed) AND is a declared type - struct/union, enum, typedef (an annotation
+        # on a function lands on the signature type, which may mention X: found and repaired F44); ids become type ids only then
         {"kind": "fn", "file": "bindgen/ir/context.rs", "name": "record_replacement", "impl": r"^impl BindgenContext$", "impl_nth": 0,
          "closure": {"enclosing": "process_replacements", "anchor_re": r"(?m)^\s*if let Some\(replacement\) = replacement \{", "nth": 0, "stmt": True,
                      "signature": "fn record_replacement(self_: &BindgenContext, id: ItemId, replacement: Option<&ItemId>, replacements: &mut Vec<(TypeId, TypeId)>)",
                      "prefix": "{", "suffix": "}"},
-         "subst": [(r"re:(?<![\w.])self(?![\w(:])", "self_", 0, "R18 captured self")],
-         # `id` comes from the iteration over the item table and was seen to be a type; an existing replacement is a type item
-         # (BindgenContext::replace is only called while a type is parsed)
-         "requires": ["self_.s_exists(id) && self_.s_is_type(id)", "forall|r: ItemId| self_.s_exists(r) ==> self_.s_is_type(r)"],
+         "subst": [(r"re:(?<![\w.])self(?![\w(:])", "self_", 0, "R18 captured self"),
+                   (r"re:\bcontinue\b", "return", 0, "R18 `continue` of the enclosing loop ends the statement")],
+         # `id` comes from the iteration over the item table and was seen to be a type
+         "requires": ["self_.s_exists(id) && self_.s_is_type(id)"],
          "ensures": [
              "final(replacements)@.len() <= old(replacements)@.len() + 1",
-             "final(replacements)@.len() == old(replacements)@.len() + 1 ==> replacement.is_some() && self_.s_exists(*replacement.unwrap()) && final(replacements)@.last() == (TypeId(id), TypeId(*replacement.unwrap()))",
+             "final(replacements)@.len() == old(replacements)@.len() + 1 ==> replacement.is_some() && self_.s_exists(*replacement.unwrap()) && self_.s_declared_type(*replacement.unwrap()) && final(replacements)@.last() == (TypeId(id), TypeId(*replacement.unwrap()))",
+             # and every declared type named by an annotation IS recorded
+             "replacement.is_some() && *replacement.unwrap() != id && self_.s_exists(*replacement.unwrap()) && self_.s_declared_type(*replacement.unwrap()) ==> final(replacements)@.len() == old(replacements)@.len() + 1",
          ]},
     ],
 }
